@@ -132,6 +132,17 @@ def gen_cases(ctx):
             o["unit"] = True
         elif r < 0.5:
             o["non_unit"] = True
+        elif r < 0.65:
+            # the unit switches together with --layer patterns - also patterns that the unit layer's own name passes
+            # (a broad one, an only-negated list): -f takes the unit tests out whatever --layer says, -u replaces the
+            # patterns, -u -f cancel each other
+            o["layer"] = rng.choice([["."], ["layer"], ["!" + rng.choice(names).split(".")[-1] + "$"], ["UnitTests"],
+                                     [rng.choice(names).split(".")[-1], "zope"], ["!nomatch"]])
+            sw = rng.choice(["non_unit", "non_unit", "unit", "both"])
+            if sw in ("non_unit", "both"):
+                o["non_unit"] = True
+            if sw in ("unit", "both"):
+                o["unit"] = True
         if rng.random() < 0.3:
             o["test"] = [rng.choice(["t1", "t[02468] ", "!t1", "t3 ", "t"])]
         elif rng.random() < 0.4:
@@ -252,6 +263,10 @@ def shuffle_modes(ctx, n=None):
             # main process before the other layers are resumed in subprocesses - which must shuffle like the parent
             worlds.shape_argv_clobber(rng, w, wo)
             wo.pop("processes", None)
+        if i % 4 == 1:
+            # every iteration's failures and errors count and are listed - by the main process and by the layer
+            # subprocesses alike (a test that fails in both iterations is named twice)
+            wo["repeat"] = 2
         jobs.append((i, w, seed, rng.choice([2, 3, 4]), rng.randint(0, 10 ** 6), wo))
 
     def one(job):
@@ -302,7 +317,7 @@ def shuffle_modes(ctx, n=None):
             bad = "--list-tests -f lists %r, without -f the same layers are listed as %r" % (lf, l1_non_unit)
         elif l1 != lj:
             bad = "--list-tests with -j %d lists %r, without -j %r" % (j, lj, l1)
-        elif seq != {k: v for k, v in l1.items() if v}:
+        elif seq != {k: v * wo.get("repeat", 1) for k, v in l1.items() if v}:
             bad = "the sequential run executes %r, --list-tests lists %r" % (seq, l1)
         elif par != seq:
             bad = "the -j %d run executes %r per layer, the sequential run %r" % (j, par, seq)
@@ -318,6 +333,10 @@ def shuffle_modes(ctx, n=None):
                 for key, what in (("fail_names", "failures"), ("err_names", "errors")):
                     if sorted(p1[key]) != sorted(p2[key]):
                         bad = "'Tests with %s' lists %r sequentially, %r with -j %d" % (what, sorted(p1[key]), sorted(p2[key]), j)
+                # the failures and errors of the "Total:" line (the tests figure under --repeat and the skipped figure of
+                # subprocesses are D5 / D4)
+                if not bad and p1["total"] and p2["total"] and p1["total"][1:3] != p2["total"][1:3]:
+                    bad = "Total: %r failures/errors sequentially, %r with -j %d" % (p1["total"][1:3], p2["total"][1:3], j)
         if bad:
             ctx.violation("seed %d: %s" % (seed, bad), case, signature="modes-disagree")
 
